@@ -263,7 +263,7 @@ pub fn oracle_c13(ops: &[String], ans: &[String]) -> Fails {
     }
     let mut refs: HashMap<u64, R> = HashMap::new();
     let class = |bh: &ScriptBH, r: &R, key: u64| -> u64 {
-        let h = bh.hash_words(&[key]);
+        let h = bh.hash_one_words(&[key]);
         if r.q + r.r >= 64 {
             h
         } else {
